@@ -161,8 +161,15 @@ def edit(rnd, t, bad):
 
 # ------------------------------------------------------------------ the spec's encoder (T, I, M)
 class Enc:
-    def __init__(self, env=None):
+    def __init__(self, env=None, poison=None):
         self.memo, self.entries, self.env = {}, [], env or {}
+        # malformed-value mutants: `sites` counts the places where a value byte can be made ill-formed (bool byte, opt tag,
+        # variant index, first byte of a non-empty text); the site numbered `poison` is written ill-formed
+        self.sites, self.poison = 0, poison
+
+    def site(self):
+        self.sites += 1
+        return self.poison is not None and self.sites - 1 == self.poison
 
     def ref(self, t):
         if isinstance(t, str):
@@ -205,26 +212,30 @@ class Enc:
             if t in ("null", "reserved"):
                 return b""
             if t == "bool":
-                return bytes([1 if v else 0])
+                return bytes([2 if self.site() else (1 if v else 0)])
             if t == "nat":
                 return leb_ref(v)
             if t == "int":
                 return sleb_ref(v)
             if t == "text":
                 u = v.encode()
+                if u and self.site():
+                    u = b"\xff" + u[1:]
                 return leb_ref(len(u)) + u
             if t == "principal":
                 return b"\x01" + leb_ref(len(v[1])) + v[1]
             n, signed = FIXED[t]
             return (v & ((1 << (8 * n)) - 1)).to_bytes(n, "little")
         if t[0] == "opt":
-            return b"\x00" if v is None else b"\x01" + self.val(t[1], v[1])
+            if v is None:
+                return b"\x00"
+            return (b"\x02" if self.site() else b"\x01") + self.val(t[1], v[1])
         if t[0] == "vec":
             return leb_ref(len(v)) + b"".join(self.val(t[1], x) for x in v)
         if t[0] == "record":
             return b"".join(self.val(x, fv) for (_, x), (_, fv) in zip(t[1], v))
         idx = [i for i, _ in t[1]].index(v[1])
-        return leb_ref(idx) + self.val(t[1][idx][1], v[2])
+        return leb_ref(len(t[1]) if self.site() else idx) + self.val(t[1][idx][1], v[2])
 
     def message(self, types, values):
         refs = [self.ref(t) for t in types]
@@ -386,6 +397,17 @@ def run(pid, build_replay):
             if rnd.random() < 0.5:
                 NAMES[fid] = nm
         cases.append((f"co {msg.hex()} {','.join(show(e) for e in exps) or '-'}", tys, vals, exps, want, {}, {}))
+        # ill-formed value bytes are an error whatever is expected (also in a surplus argument, also below an opt):
+        # one byte of one value made ill-formed, or the message cut short
+        if rnd.random() < 0.4:
+            e0 = Enc()
+            e0.message(tys, vals)
+            if e0.sites and rnd.random() < 0.8:
+                bad_msg = Enc(poison=rnd.randrange(e0.sites)).message(tys, vals)
+            else:
+                bad_msg = msg[:-1]
+            if bad_msg != msg:
+                cases.append((f"co {bad_msg.hex()} {','.join(show(e) for e in exps) or '-'}", tys, "ill-formed value bytes", exps, FAIL, {}, {}))
         NAMES.clear()
     # (mutually) recursive types: lists and trees decoded at edited recursive expected types
     for _ in range(600 * (10 if scale > 1 else 1)):
@@ -395,6 +417,15 @@ def run(pid, build_replay):
         tys, vals, exps = [("ref", kind)], [gen_rec_value(rnd, kind)], [("ref", ename)]
         if rnd.random() < 0.3:
             exps = [("opt", ("ref", ename))]
+        # a missing argument whose expected type is a NAME: it reads as null iff the name unfolds to opt / null / reserved
+        for _ in range(rnd.choice([0, 0, 1, 1, 2])):
+            nm, d = rnd.choice([("ONat", ("opt", "nat")), ("ANull", "null"), ("ARes", "reserved"), ("ANat", "nat"),
+                                ("OO", ("ref", "ONat")), ("AText", "text")])
+            eenv = dict(eenv)
+            eenv[nm] = d
+            if nm == "OO":
+                eenv["ONat"] = ("opt", "nat")
+            exps = exps + [("ref", nm)]
         msg = Enc(WIRE_DEFS).message(tys, vals)
         ENVS["w"], ENVS["e"] = WIRE_DEFS, eenv
         want = coerce_args(vals, tys, exps)
@@ -456,7 +487,7 @@ def run(pid, build_replay):
             "samples": [],
             "bounded_standins": [{"functions": ["de.rs as a whole (untyped decoding at expected types): deserialize_with_type, argument sequencing, done(), "
                                                 "record / variant / option / vector coercion, IDLValue visitor; value.rs annotate_type + encoder for the way back"],
-                                  "bound": f"{len(cases)} seeded messages: 600 lists / trees of recursive types at 8 edited recursive expected types, the rest of 0..3 non-recursive arguments (types of depth <= 3 over nat, int, fixed-width ints, bool, text, null, "
+                                  "bound": f"{len(cases)} seeded messages: 600 lists / trees of recursive types at 8 edited recursive expected types (with 0..2 further expected arguments that are missing on the wire and named: aliases of opt / null / reserved / nat / text), about 1600 messages with one value byte made ill-formed (bool byte, opt tag, variant index, first byte of a text) or cut short -- an error is demanded whatever is expected, also in surplus arguments --, both entry points (from_bytes_with_types, from_bytes_with_types_with_config) must agree, the rest of 0..3 non-recursive arguments (types of depth <= 3 over nat, int, fixed-width ints, bool, text, null, "
                                            f"reserved, opt, vec, record, variant), expected types = the argument types after 0..3 random edits; "
                                            f"{nfail} of them have no coercion (an error is demanded)",
                                   "vectors": len(cases), "disagreements": len(failures), "labelled": "bounded, NOT proved",
